@@ -54,6 +54,10 @@ Definition only (k : pykey) (ws : list label) : list label :=
 Definition nl_only_at_end (ws : list label) : Prop :=
   forall a s, In (Write a s) ws -> has_nl s = true -> ends_nl s = true.
 
+(** the same, required of the writes of `k` only *)
+Definition nl_only_at_end_for (k : pykey) (ws : list label) : Prop :=
+  forall s, In (Write k s) ws -> has_nl s = true -> ends_nl s = true.
+
 (** what `k` has written since its last write that ended in NL, and the
     pieces completed so far -- by one pass over the history *)
 Definition hstep (k : pykey) (acc : list text * text) (l : label) : list text * text :=
